@@ -251,8 +251,11 @@ fn one(ctx: &mut Ctx, inst: &'static str, s: &str) {
     }
 }
 
-const PIECES: [&str; 17] =
-    ["", ".", "..", "%2e", "%2E", ".%2e", "%2e.", "%2E%2e", "%2F", "%2f", "a%2Fb", "%5C", "..%2F", "a", "b.c", "é", "%41"];
+const PIECES: [&str; 21] = [
+    "", ".", "..", "%2e", "%2E", ".%2e", "%2e.", "%2E%2e", "%2F", "%2f", "a%2Fb", "%5C", "..%2F", "a", "b.c", "é", "%41",
+    // literal escape text: decoding twice would turn these into dot segments / a slash / 'A'
+    "%252e%252E", "%252F", "%2541", "%25",
+];
 
 pub fn run(ctx: &mut Ctx) {
     // exhaustive: every sequence of <= N pieces, as namespace and as subpath, bare and with
@@ -261,7 +264,7 @@ pub fn run(ctx: &mut Ctx) {
     let mut idx = 0u64;
     let mut total = 0u64;
     for len in 0..=maxn {
-        let count = 17u64.pow(len as u32);
+        let count = (PIECES.len() as u64).pow(len as u32);
         for j in 0..count {
             idx += 1;
             total += 1;
@@ -271,8 +274,8 @@ pub fn run(ctx: &mut Ctx) {
             let mut rem = j;
             let mut seq: Vec<&str> = Vec::with_capacity(len);
             for _ in 0..len {
-                seq.push(PIECES[(rem % 17) as usize]);
-                rem /= 17;
+                seq.push(PIECES[(rem % PIECES.len() as u64) as usize]);
+                rem /= PIECES.len() as u64;
             }
             let joined = seq.join("/");
             let forms = [
